@@ -126,7 +126,7 @@ func c11PlainNumber(s string) (int, bool, bool) { // value, is a plain decimal n
 	if signed {
 		digits = s[1:]
 	}
-	if digits == "" || len(digits) > 9 {
+	if digits == "" {
 		return 0, false, false
 	}
 	v := 0
@@ -134,7 +134,9 @@ func c11PlainNumber(s string) (int, bool, bool) { // value, is a plain decimal n
 		if c < '0' || c > '9' {
 			return 0, false, false
 		}
-		v = v*10 + int(c-'0')
+		if v < 1<<30 {
+			v = v*10 + int(c-'0') // (a number of any length: beyond the range it only matters that it is beyond)
+		}
 	}
 	if signed || (len(digits) > 1 && digits[0] == '0') {
 		return v, false, true
@@ -381,4 +383,28 @@ func genC11(t *rapid.T) c11Case {
 		}
 	}
 	return c11Case{string(s)}
+}
+
+// FuzzC11 is the coverage-guided target (thorough tier): arbitrary strings against the reference grammar, through the
+// conversion function and through a configuration file. Seeds: all 128 names, some near misses.
+func FuzzC11(f *testing.F) {
+	r := NewRun(f, "C11")
+	curRun = r
+	for n := 0; n < 128; n++ {
+		p, o := refName(n)
+		f.Add(fmt.Sprintf("%s%d", p, o))
+	}
+	for _, s := range []string{"", "c-0", "h3", "e#1", "c9", "C-2 C#-2", " c3", "c3 ", "60", "060", "-0", "c3,1", "c3,16", "c3 1", "G8", "g#8", "C--1", "c♯3", "ｃ3", "c3\x00"} {
+		f.Add(s)
+	}
+	f.Fuzz(func(t *testing.T, s string) {
+		if len(s) > 64 {
+			return
+		}
+		_, v := checkC11Both(s, true)
+		if v != nil && !r.Known(v) {
+			r.Fail(c11Case{s}, v)
+			t.Fatalf("VIOLATION %s", v)
+		}
+	})
 }
